@@ -3,6 +3,7 @@ CONSTANTS
   CheckTrailer = TRUE
   UpdateWatchdog = TRUE
   WaitOrigins = TRUE
+  CallerCtx = TRUE
   Bound = 1
   NOrigs = {0, 1}
   Intfs = {"keep"}
